@@ -1,5 +1,11 @@
 /- C29 — property theorems (decision logic outright; transparency under the gzip contract). -/
 import TornadoModel.C29.Lemmas
+import TornadoModel.C29.RunLevel
+import TornadoModel.C29.RunCE
+import TornadoModel.C29.WireCL
+import TornadoModel.C29.RunVary
+import TornadoModel.C29.RunGz
+import TornadoModel.C29.RunWire
 namespace TornadoModel.C29
 open TornadoModel.C02
 open TornadoModel.C06 (Str normalize)
@@ -139,6 +145,128 @@ theorem decoded_equals_written (gz : Gz) (gunzip : Bytes → Option Bytes) (hctr
 theorem identity_when_not_compressing (gz : Gz) (calls : GzHist) :
     feed gz { gzipping := false } calls = some ({ gzipping := false }, calls.map (·.1)) :=
   feed_identity gz calls _ rfl
+
+/-- **run_transparent** (run level, over whole handler programs, about the bytes on the wire): for every request
+    shape (not HEAD, no `If-None-Match` hit), every Accept-Encoding header and every exception-free program
+    (`C02.opClean`: any interleaving of write / flush / finish, any Content-Type or other header set / added /
+    cleared except `Transfer-Encoding` / `Content-Length`, body-carrying statuses), with any gzip writer / reader
+    pair satisfying the contract: the strict client (`C02.Spec.clientParse`) reads **exactly one response with
+    nothing left over**, and undoing the coding the transform applied — `gunzip` iff it compressed — yields
+    **exactly the bytes the handler wrote** (`C02.bodyOf prog`).  Covers all three framings (automatic
+    Content-Length rewritten to the encoded length, chunked, close-delimited). -/
+theorem run_transparent (gz : Gz) (gunzip : Bytes → Option Bytes) (hctr : Spec.GzContract gz gunzip)
+    (rq : Req) (ae : Option Str) (hrq : reqOK rq = true) (hm : rq.method ≠ Method.head)
+    (hinm : rq.inmMatch = false) (prog : List Op) (hops : ∀ op ∈ prog, opClean op = true) :
+    ∃ hs d body,
+      C02.Spec.clientParse (rq.method == .head) (wire (run gz rq ae prog).base.conn) (run gz rq ae prog).base.conn.closed
+        = .ok (⟨headStatus 200 prog, reason (headStatus 200 prog), hs, body, d⟩, []) ∧
+      (if (run gz rq ae prog).t.gzipping then gunzip body else some body) = some (bodyOf prog) := by
+  obtain ⟨hs, d, body, h1, h2, h3⟩ := run_clean29 gz rq ae hrq hm hinm prog hops
+  refine ⟨hs, d, body, h1, ?_⟩
+  cases hg : (run gz rq ae prog).t.gzipping with
+  | false => simp only [Bool.false_eq_true, if_false]; rw [h3 hg]
+  | true =>
+    obtain ⟨a1, a2, a3⟩ := h2 hg
+    simp only [if_true]
+    rw [a2, ← a3]
+    exact hctr _ a1
+
+/-- **decoded_per_content_encoding** (the headline clause, literally): for every request shape (not HEAD, no
+    `If-None-Match` hit), every Accept-Encoding header and every exception-free program that leaves
+    `Content-Encoding` to the framework (`opClean29` = `C02.opClean` + no handler-set Content-Encoding), with any
+    gzip pair satisfying the contract: the strict client reads exactly one response `r`, nothing left over, with
+    the status in force at the first flush/finish; its `Content-Encoding` header is `gzip` exactly when the
+    transform compressed (absent otherwise); and **decoding the body according to that header**
+    (`Spec.decodeBody`) returns exactly the bytes the handler wrote. -/
+theorem decoded_per_content_encoding (gz : Gz) (gunzip : Bytes → Option Bytes) (hctr : Spec.GzContract gz gunzip)
+    (rq : Req) (ae : Option Str) (hrq : reqOK rq = true) (hm : rq.method ≠ Method.head)
+    (hinm : rq.inmMatch = false) (prog : List Op) (hops : ∀ op ∈ prog, opClean29 op = true) :
+    ∃ r, C02.Spec.clientParse (rq.method == .head) (wire (run gz rq ae prog).base.conn)
+          (run gz rq ae prog).base.conn.closed = .ok (r, []) ∧
+      r.status = headStatus 200 prog ∧
+      C02.Spec.lookup Spec.lcCE r.headers = (if (run gz rq ae prog).t.gzipping then [vGzip] else []) ∧
+      Spec.decodeBody gunzip r = some (bodyOf prog) :=
+  run_decode29 gz gunzip hctr rq ae hrq hm hinm prog hops
+
+example : ∀ op ∈ [Op.setHeader nCT [116, 101, 120, 116, 47, 120], .addHeader nVary [88], .write [97], .flush,
+    .clearHeader nCT, .write [98], .finish (some [99])], opClean29 op = true := by decide
+
+/-- **wire_content_length_is_encoded_length** (run level, on the wire): in every clean run (as in
+    `run_transparent`; no contract needed) the strict client reads exactly one response, nothing left over, and
+    **every `Content-Length` header it carries is the decimal length of the body on the wire** — which, when the
+    transform compressed, is the concatenation of the transform's outputs (the *encoded* body), not what the
+    handler wrote. -/
+theorem wire_content_length_is_encoded_length (gz : Gz) (rq : Req) (ae : Option Str) (hrq : reqOK rq = true)
+    (hm : rq.method ≠ Method.head) (hinm : rq.inmMatch = false) (prog : List Op)
+    (hops : ∀ op ∈ prog, opClean op = true) :
+    ∃ hs d body,
+      C02.Spec.clientParse (rq.method == .head) (wire (run gz rq ae prog).base.conn) (run gz rq ae prog).base.conn.closed
+        = .ok (⟨headStatus 200 prog, reason (headStatus 200 prog), hs, body, d⟩, []) ∧
+      (∀ v ∈ C02.Spec.lookup C02.Spec.lcCL hs, parseDec v = some body.length) ∧
+      ((run gz rq ae prog).t.gzipping = true → body = (Spec.outputs gz (run gz rq ae prog).t.hist).flatten) := by
+  obtain ⟨hs, d, body, h1, h2, _⟩ := run_clean29 gz rq ae hrq hm hinm prog hops
+  have hm' : (rq.method == Method.head) = false := by
+    cases h : rq.method with
+    | head => exact absurd h hm
+    | get => rfl
+    | post => rfl
+  refine ⟨hs, d, body, h1, ?_, fun hg => (h2 hg).2.1⟩
+  exact clientParse_cl _ _ _ _ _ h1 (by
+    show (_ || noBodyStatus (headStatus 200 prog)) = false
+    rw [hm', headStatus_nb prog 200 (by decide) hops]; rfl)
+
+/-- **vary_on_every_response** (run level, NO side condition: every request shape incl. HEAD, every
+    Accept-Encoding, every program — rejected ops and the framework's error page, 304 / 204, handler-set Vary /
+    Content-Encoding / Content-Length, any gzip writer): whenever `write_headers` serialises a header block
+    (ghost `head`), it contains a `Vary` line whose value lists `Accept-Encoding`, **and the bytes on the wire
+    begin with exactly that block** (`headBytes code hs` = status line, the header lines, empty line).  I.e. `transform_first_chunk` runs — on a fresh transform — before every head that is written. -/
+theorem vary_on_every_response (gz : Gz) (rq : Req) (ae : Option Str) (prog : List Op) (code : Nat)
+    (hs : List (Str × Str)) (hh : (run gz rq ae prog).base.conn.head = some (code, hs)) :
+    (∃ v, (nVary, v) ∈ hs ∧ Spec.variesOnAE v = true) ∧
+    ∃ rest, wire (run gz rq ae prog).base.conn = headBytes code hs ++ rest :=
+  ⟨(WQ_run gz rq ae prog).1.2 code hs hh, (WQ_run gz rq ae prog).2.2 code hs hh⟩
+
+/-! non-vacuity: an op that raises (invalid header value) leads to the framework's 500 page — a head is written -/
+example : ((run (fun _ => []) { method := .head, v11 := true, conn := .absent } (some vGzip)
+    [Op.setHeader [88] [10]]).base.conn.head.map (·.1)) = some 500 := by decide
+
+/-- **gzip_only_if_accepted** (run level, NO side condition — every program, request shape, gzip writer): if at
+    the end of the run the transform is compressing, or the gzip writer was called at all, then the request's
+    Accept-Encoding mentions gzip.  (With `decoded_per_content_encoding`: in clean runs the response carries
+    `Content-Encoding: gzip` only if the request mentions gzip.) -/
+theorem gzip_only_if_accepted (gz : Gz) (rq : Req) (ae : Option Str) (prog : List Op) :
+    ((run gz rq ae prog).t.gzipping = true ∨ (run gz rq ae prog).t.hist ≠ []) → mentionsGzip ae = true := by
+  have v := P_runOps gz rq (GzP ae) (fun s fin h => GzP_hFlush gz rq ae s fin h) prog (init rq ae)
+    ⟨fun h => h, fun h => absurd rfl h, fun _ => rfl⟩
+  rintro (h | h)
+  · exact v.1 h
+  · exact v.1 (v.2.1 h)
+
+/-- **run_feed_is_writes** (no contract needed): in the same runs the transform is fed exactly the program's
+    writes, as flushes followed by exactly one close, and the response body is the concatenation of what it emitted;
+    a non-compressing transform leaves the body equal to the writes. -/
+theorem run_feed_is_writes (gz : Gz) (rq : Req) (ae : Option Str) (hrq : reqOK rq = true) (hm : rq.method ≠ Method.head)
+    (hinm : rq.inmMatch = false) (prog : List Op) (hops : ∀ op ∈ prog, opClean op = true) :
+    ∃ hs d body,
+      C02.Spec.clientParse (rq.method == .head) (wire (run gz rq ae prog).base.conn) (run gz rq ae prog).base.conn.closed
+        = .ok (⟨headStatus 200 prog, reason (headStatus 200 prog), hs, body, d⟩, []) ∧
+      ((run gz rq ae prog).t.gzipping = true →
+        Spec.WellClosed (run gz rq ae prog).t.hist ∧ body = (Spec.outputs gz (run gz rq ae prog).t.hist).flatten ∧
+        ((run gz rq ae prog).t.hist.map (·.1)).flatten = bodyOf prog) ∧
+      ((run gz rq ae prog).t.gzipping = false → body = bodyOf prog) :=
+  run_clean29 gz rq ae hrq hm hinm prog hops
+
+/-! non-vacuity of the run-level theorems: a clean program that is compressed and streamed, one that is compressed in
+    one shot is covered by the tie; here the hypotheses and both outcomes of the decision -/
+example : reqOK { method := .get, v11 := true, conn := .absent } = true ∧
+    (∀ op ∈ [Op.setHeader nCT [116, 101, 120, 116, 47, 120], .write [97], .flush, .write [98], .finish (some [99])],
+      opClean op = true) := by decide
+example : (run (fun h => (h.getLast?.map (·.1)).getD []) { method := .get, v11 := true, conn := .absent } (some vGzip)
+    [Op.setHeader nCT [116, 101, 120, 116, 47, 120], .write [97], .flush, .write [98], .finish (some [99])]).t
+      = { gzipping := true, hist := [([97], false), ([98, 99], true)], fileClosed := true } := by decide
+example : (run (fun h => (h.getLast?.map (·.1)).getD []) { method := .get, v11 := true, conn := .absent } none
+    [Op.setHeader nCT [116, 101, 120, 116, 47, 120], .write [97], .flush, .write [98], .finish (some [99])]).t.gzipping
+      = false := by decide
 
 /-! non-vacuity: the hypotheses are satisfiable and the decision is reachable both ways -/
 
